@@ -21,12 +21,18 @@ Contracts (from the property text), mode SYM (data movement; integer + - with re
   ctor-*        Tensor(ptr), Tensor(ptr, RowMajor), Tensor(std::array), initializer lists of rank 1-4: element k of the
                 given sequence is stored at row-major offset k;  Tensor(ptr, ColumnMajor) / Tensor(std::array, ColumnMajor):
                 tensor element (i0..ik) is the element at the column-major offset of the given data.
+  map-assign-map     M = B for two maps of the same type copies the elements of B into M's buffer (what the statement does for
+                owning tensors); B's buffer is not written and M keeps denoting its own buffer.
+  reverse-map / reverse-own    X.reverse() through a map over m + d and on an owning tensor: element k becomes element n-1-k.
   map-view-assign    M(seq...) = <tensor>, M(seq...) += <tensor> through a map (compile-time acceptance + effect).
+The generic programs use neither `map = map` nor reverse() (both defective on the unchanged tree, kept in their own families).
 Excluded: the std::vector constructor (std::vector allocates: the no-allocation stub of the harness would fire; the
 constructor body is the same std::copy as the std::array one), stream output, "every misalignment" is the concrete set
 d in {0,1,2,3} elements (4..24 bytes), not a symbolic byte offset.
 """
 from units.common import *
+# 64-bit integers as int64_t: on LP64 `long long` (vf.I64) is a different type and never reaches SIMDVector<int64_t,ABI>
+L64 = Ty('int64', 'int64_t', 64, 'int')
 
 LEVEL_NOTE = ('per instantiation (program / shape pair / type / offset / ISA / std): buffer contents after operations through a map == '
               'owning-tensor result == the sequential semantics of the operations, frame, visibility both ways; reshape/flatten/squeeze '
@@ -360,7 +366,7 @@ def cases(tier, seed):
             main_std = std == 'c++14'
             full = thorough and main_std
             # ---- programs through a map at offset d versus an owning tensor ----
-            for ty in ((INT, FLT, DBL, I64) if full else ((INT, FLT, DBL) if main_std else (INT,))):
+            for ty in ((INT, FLT, DBL, L64) if full else ((INT, FLT, DBL) if main_std else (INT,))):
                 arith = ty.kind == 'int'
                 for shape in prog_shapes(isa, ty, thorough):
                     for d in range(4):
@@ -438,3 +444,12 @@ def cases(tier, seed):
     for c in out:
         if c.cid not in seen: seen.add(c.cid); res.append(c)
     return res
+
+
+def evidence_extra(tier):
+    return {'box': {'map_offsets_elements': [0, 1, 2, 3], 'program_length': '2-4 operations (at most two arithmetic)',
+                    'operations': ['= tensor', '= expr', '+= -= tensor', '= B - X', '+= B + B', '+= -= scalar', '+= self', 'fill', 'zeros', 'ones',
+                                   'iota (int)', 'scalar-index write', 'dynamic view = / += scalar', 'strided column view = scalar', 'fixed view = scalar'],
+                    'reshape_targets': 'every shape of rank <= 3 with the same number of elements (quick: at most one unit extent)',
+                    'layout_ranks': [1, 2, 3, 4], 'element_types': ['int', 'float', 'double'] + (['int64'] if tier == 'thorough' else []),
+                    'excluded': ['std::vector constructor (allocates)', 'symbolic byte misalignment (concrete element offsets 0..3 instead)']}}
